@@ -1,4 +1,4 @@
 SPECIFICATION ObsSpec
 CHECK_DEADLOCK FALSE
-INVARIANTS RaceFuncOnce RaceGetsAgree RaceReleasedOnce RecordsOK
+INVARIANTS RaceTimedWaitReadyMeansResultExists RaceFuncOnce RaceGetsAgree RaceReleasedOnce RecordsOK
 POSTCONDITION ObsAccepted
